@@ -550,18 +550,94 @@ pub fn cmd_sweep_c13(args: &[String]) {
         if base != dxp { rep.fail("converted Ed25519 pair is not consistent: base * xsk != xpk", json!({"i": i})); }
     }
     // key pair derived from a password: secret = Argon2(password), public = base * secret
-    for i in 0..6u64 {
+    for i in 0..16u64 {
         let pw = rng.bytes(5 + i as usize);
         let salt = rng.bytes(16);
-        let cfg = dryoc::pwhash::Config::interactive().with_opslimit(1 + i % 3).with_memlimit(8192 * (1 + i as usize));
+        // the key pair is the 32-byte Argon2 output whatever the configuration's hash/salt length settings are
+        let hl = [32usize, 16, 33, 64, 128, 31][(i % 6) as usize];
+        let cfg = dryoc::pwhash::Config::interactive().with_opslimit(1 + i % 3).with_memlimit(8192 * (1 + i as usize)).with_hash_length(hl).with_salt_length(8 + (i as usize) % 24);
         let kp: Result<dryoc::dryocbox::KeyPair, _> = dryoc::pwhash::PwHash::<Vec<u8>, Vec<u8>>::derive_keypair(&pw, salt.clone(), cfg);
         let mut want_sk = [0u8; 32];
         let rc = unsafe { so::crypto_pwhash(want_sk.as_mut_ptr(), 32, pw.as_ptr() as *const _, pw.len() as u64, salt.as_ptr(), 1 + i % 3, 8192 * (1 + i as usize), 2) };
         let mut want_pk = [0u8; 32];
         unsafe { so::crypto_scalarmult_base(want_pk.as_mut_ptr(), want_sk.as_ptr()) };
         rep.evaluations += 1;
-        match kp { Ok(kp) => { if rc != 0 || kp.secret_key.as_slice() != want_sk || kp.public_key.as_slice() != want_pk { rep.fail("PwHash::derive_keypair differs from libsodium's construction", json!({"i": i})); } } Err(e) => rep.fail("PwHash::derive_keypair failed", json!(format!("{:?}", e))) }
+        match kp { Ok(kp) => { if rc != 0 || kp.secret_key.as_slice() != want_sk || kp.public_key.as_slice() != want_pk { rep.fail("PwHash::derive_keypair differs from libsodium's construction", json!({"i": i, "config_hash_length": hl})); } } Err(e) => rep.fail("PwHash::derive_keypair failed", json!(format!("{:?}", e))) }
     }
-    rep.sample(json!({"box_seed_lengths": "0..=128 x 3", "seeds_32": 300, "password_keypairs": 6}));
+    rep.sample(json!({"box_seed_lengths": "0..=128 x 3", "seeds_32": 300, "password_keypairs": 16}));
+    rep.write(&args[0]);
+}
+
+// ------------------------------------------------------------------------------------------ C09 sweep
+/// `prims-sweep-c09 <out.json> <seed> <first> <stride> <thorough 0|1>`: dryoc = libsodium over the parameter grid
+/// wherever libsodium accepts; rejected parameters are errors on both; object API verify.
+pub fn cmd_sweep_c09(args: &[String]) {
+    let seed: u64 = args[1].parse().unwrap();
+    let first: usize = args[2].parse().unwrap();
+    let stride: usize = args[3].parse().unwrap();
+    let thorough = args[4] == "1";
+    let mut rng = Rng::new(seed ^ 0xc09);
+    let mut rep = Report::new();
+    let mut idx = 0usize;
+    let mut case = |rep: &mut Report, rng: &mut Rng, ty: u64, t: u64, mkib: u64, outlen: usize, pwlen: usize| {
+        let pw = rng.bytes(pwlen);
+        let salt = rng.bytes(16);
+        idx += 1;
+        if idx % stride != first { return; }
+        let (im, sod) = argon2(ty, &pw, &salt, t, mkib, outlen);
+        if sod.is_none() { rep.fail("libsodium rejects a grid point (harness error)", json!({"type": ty, "t": t, "m": mkib, "outlen": outlen})); return; }
+        compare(rep, "argon2", im, &[("libsodium", sod.as_ref())], json!({"type": ty, "t": t, "m_kib": mkib, "outlen": outlen, "pwlen": pwlen, "seed": seed}));
+    };
+    // output lengths: every length 16..=200 (all residues mod 32 around 64, 96, 128), then around 1024 and up to 1100
+    for outlen in (16..=200usize).chain([255, 256, 257, 1023, 1024, 1025, 1100]) {
+        for ty in [1u64, 2] { case(&mut rep, &mut rng, ty, 3, 8, outlen, 7); }
+    }
+    // password lengths 0..=300
+    for pwlen in (0..=300usize).step_by(if thorough { 1 } else { 7 }).chain([0, 1, 63, 64, 65, 127, 128, 129]) {
+        case(&mut rep, &mut rng, 2, 1, 8, 32, pwlen);
+    }
+    // passes and memory sizes, including sizes that are not a multiple of 4 KiB (segment rounding)
+    let mems: Vec<u64> = if thorough { (8..=64).chain([100, 127, 128, 129, 255, 256, 257, 511, 512, 1000, 1024, 2047, 2048, 4096]).collect() } else { vec![8, 9, 10, 11, 12, 13, 15, 16, 17, 19, 23, 31, 32, 33, 63, 64, 65, 127, 128, 129, 255, 256, 513, 1024] };
+    for &m in mems.iter() {
+        for t in 1..=(if thorough { 6 } else { 4 }) {
+            case(&mut rep, &mut rng, 2, t, m, 32, 9);
+            if t >= 3 { case(&mut rep, &mut rng, 1, t, m, 32, 9); }
+        }
+    }
+    if first == 0 {
+        // out-of-range parameters are errors, on both sides
+        let pw = b"password".to_vec();
+        let salt = [7u8; 16];
+        for (what, t, mem, outlen) in [("opslimit 0", 0u64, 8192usize, 32usize), ("memlimit 8191", 1, 8191, 32), ("memlimit 0", 1, 0, 32), ("outlen 15", 1, 8192, 15), ("outlen 0", 1, 8192, 0), ("opslimit 2^32", 1u64 << 32, 8192, 32)] {
+            let mut o = vec![0u8; outlen];
+            let r = catch(|| cp::crypto_pwhash(&mut o, &pw, &salt, t, mem, cp::PasswordHashAlgorithm::Argon2id13));
+            let mut so_o = vec![0u8; outlen.max(1)];
+            let rc = unsafe { so::crypto_pwhash(so_o.as_mut_ptr(), outlen as u64, pw.as_ptr() as *const _, pw.len() as u64, salt.as_ptr(), t, mem, 2) };
+            rep.evaluations += 1;
+            if rc == 0 { rep.fail("libsodium accepts an out-of-range parameter (harness error)", json!(what)); continue; }
+            match r { Ok(Err(_)) => {}, Ok(Ok(())) => rep.fail("crypto_pwhash accepts an out-of-range parameter", json!(what)), Err(p) => rep.fail("crypto_pwhash panics on an out-of-range parameter", json!({"what": what, "panic": p})) }
+        }
+        // salts shorter than 8 bytes are outside Argon2's domain
+        let mut o = [0u8; 32];
+        rep.evaluations += 1;
+        if let Ok(Ok(())) = catch(|| cp::crypto_pwhash(&mut o, &pw, &[1u8; 7], 1, 8192, cp::PasswordHashAlgorithm::Argon2id13)) { rep.fail("crypto_pwhash accepts a 7-byte salt", json!({})); }
+        // object API: verify accepts the password that produced a hash and rejects every other
+        for i in 0..12u64 {
+            let pwl = rng.below(40) as usize;
+            let pw = rng.bytes(pwl);
+            let cfg = dryoc::pwhash::Config::interactive().with_opslimit(1 + i % 3).with_memlimit(8192 + 1024 * (i as usize)).with_hash_length(16 + 7 * i as usize).with_salt_length(8 + i as usize);
+            rep.evaluations += 1;
+            match dryoc::pwhash::PwHash::<Vec<u8>, Vec<u8>>::hash(&pw, cfg) {
+                Ok(h) => {
+                    if h.verify(&pw).is_err() { rep.fail("PwHash::verify rejects the password that produced the hash", json!({"i": i})); }
+                    for k in 0..pw.len().min(6) * 8 { let mut w = pw.clone(); w[k / 8] ^= 1 << (k % 8); rep.evaluations += 1; if h.verify(&w).is_ok() { rep.fail("PwHash::verify accepts another password", json!({"i": i, "bit": k})); } }
+                    let mut longer = pw.clone(); longer.push(0);
+                    if h.verify(&longer).is_ok() { rep.fail("PwHash::verify accepts another password", json!({"i": i, "how": "one byte appended"})); }
+                }
+                Err(e) => rep.fail("PwHash::hash failed on accepted parameters", json!(format!("{:?}", e))),
+            }
+        }
+    }
+    rep.sample(json!({"outlens": "16..=200, 255..257, 1023..1025, 1100 (both types, t=3)", "pwlens": "0..=300", "memory_kib": mems, "passes": "1..=4 (thorough 6); Argon2i from 3"}));
     rep.write(&args[0]);
 }
